@@ -177,7 +177,10 @@ pub fn scale_cases(r: &mut Rng, thorough: bool) -> Vec<(DTy, DVal)> {
         out.push((DTy::Bytes, DVal::Bytes((0..n).map(|i| (i % 256) as u8).collect())));
         out.push((DTy::Bytes, DVal::Bytes((0..n).map(|i| 1 + (i % 255) as u8).collect())));
         out.push((DTy::Tuple(vec![DTy::U(8); n]), DVal::Tuple((0..n).map(|i| DVal::U(8, i as u128 % 256)).collect())));
-        out.push((DTy::Struct(vec![DTy::Bool; n]), DVal::Struct((0..n).map(|i| DVal::Bool(i % 3 == 0)).collect())));
+        // (the harness has 4096 distinct field / variant names)
+        if n <= 4096 {
+            out.push((DTy::Struct(vec![DTy::Bool; n]), DVal::Struct((0..n).map(|i| DVal::Bool(i % 3 == 0)).collect())));
+        }
         let mut kv = Vec::new();
         for i in 0..n {
             kv.push(DVal::Str(format!("k{}", i)));
@@ -185,7 +188,7 @@ pub fn scale_cases(r: &mut Rng, thorough: bool) -> Vec<(DTy, DVal)> {
         }
         out.push((DTy::Map(Box::new(DTy::Str), Box::new(DTy::Option(Box::new(DTy::U(8))))), DVal::Map(kv)));
         // the last variant of an n-variant enum, of each variant kind
-        if n >= 1 {
+        if n >= 1 && n <= 4096 {
             let vt = |i: usize| match i % 4 { 0 => DTy::Unit, 1 => DTy::NStruct(Box::new(DTy::U(8))), 2 => DTy::Tuple(vec![DTy::U(8), DTy::Bool]), _ => DTy::Struct(vec![DTy::I(16)]) };
             let t = DTy::Enum((0..n).map(vt).collect());
             for i in [n - 1, n.saturating_sub(2), n / 2] {
